@@ -399,6 +399,11 @@ _EXTRA = {
              'R136: in _rearrange every path from entry to exit passes the loop that contains the recursive call (CFG path search): no early return cuts a subtree off.'),
     'R142': (['C09', 'C07', 'C08', 'C01', 'C19', 'C20'],
              'R142: for every `x = next(it, None)`, each place where x is put into a list / chain / append / yield carries the branch fact that x is not None.'),
+    'R12': (['C14'], 'R12 (sibling): the session model reaches every model-taking call of the codec - what node_contexts / appears_inverted report is computed on the triples that decode produced with it.'),
+    'R147': (['C18', 'C17', 'C15', 'C12', 'C10'],
+             'R147: every `is` / `is not` comparison in the package has a singleton on one side (None, True, False, an upper-case module-level sentinel, a class, type(...)).'),
+    'R148': (['C19', 'C07', 'C01', 'C09'],
+             'R148: in penman._parse no name is assigned a constant under the branch fact that the same name equals (or is one of) some non-empty string literal(s).'),
     'R146': (['C02', 'C03', 'C05', 'C12'],
              'R146: in _preconfigure the call model.invert(triple) stands under the branch fact <pushed variable> == <source of the triple> and under no test of another attribute of the marker.'),
     'R145': (['C02', 'C01', 'C03', 'C04', 'C07', 'C08', 'C19'],
